@@ -2213,7 +2213,7 @@ def c11(tier, rng):
     res = Result()
     # powers of two are where fixed-width counters wrap: 2^8 (flow level), 2^16
     depths = [1, 10, 100, 255, 256, 257, 1000, 10000, 30000, 65535, 65536, 70000] + ([100000, 140000] if tier == 'thorough' else [])
-    res.rule = f"nesting depth in {depths} x shape (block sequence, block mapping, explicit key, flow sequence, flow mapping, alternating) x API (iterator, push, load_from_str + drop, emit); plus one-line mixtures: 31 fixed and random units of block/flow indicators and properties ('- ', '? ', ': ', '- : ', ': ? ', '- &a ', '[(a: ', ...) repeated to depth 10..100000 x iterator/push/loader, the block ones also closed by a '---' / '...' line instead of the end of input; non-trivial = depth >= 10"
+    res.rule = f"nesting depth in {depths} x shape (block sequence, block mapping, explicit key, flow sequence, flow mapping, alternating) x API (iterator, push, load_from_str + drop, emit); plus one-line mixtures: 31 fixed and random units of block/flow indicators and properties ('- ', '? ', ': ', '- : ', ': ? ', '- &a ', '[(a: ', ...) repeated to depth 10..100000 x iterator/push/loader (and, on an unoptimised build, the stack span at depth 10 vs 2000 seen from inside the character iterator), the block ones also closed by a '---' / '...' line instead of the end of input; non-trivial = depth >= 10"
     res.corr_ops = []
     def run(api, shape, depth):
         try:
@@ -2274,6 +2274,39 @@ def c11(tier, rng):
                 sig = 'C11:emit-recursion'
             res.oracle_failures.append({'sig': sig, 'what': f'{api} on {shape} nesting of depth {d}: the process died (status {rc})', 'reqs': [f'--deep {api} {shape} {d}'], 'input': f'{shape} x {d}'})
     res.samples = [{'api': j[0], 'shape': j[1], 'depth': j[2], 'status': rc} for j, rc in list(zip(jobs, rcs))[:6]]
+    # stack bytes per nesting level, measured on an UNOPTIMISED build (an optimised build may turn a self-call in tail
+    # position into a loop and hide recursion that `cargo build` / `cargo test` users have): the characters are served by
+    # an iterator that records how deep in the stack it is called; the span must not grow with the depth
+    import core as _core
+    okb, outb = _core.build_harness_debug()
+    DBG = os.path.join(os.path.dirname(IMPL), '..', 'debug', 'impl_run')
+    if not okb or not os.path.exists(DBG):
+        res.oracle_failures.append({'sig': 'C11:debug-build-failed', 'what': 'the unoptimised harness did not build: ' + outb[-300:], 'reqs': ['cargo build --offline'], 'input': ''})
+        return res
+    def span(shape, d):
+        try:
+            p = subprocess.run([DBG, '--deep', 'stack', shape, str(d)], capture_output=True, timeout=300)
+        except subprocess.TimeoutExpired:
+            return None
+        m = [l for l in p.stdout.decode('utf8', 'replace').splitlines() if l.startswith('STACK ')]
+        return int(m[0].split(' ')[1]) if m and p.returncode in (0, 3) else None
+    sshapes = ['seq', 'key', 'fseq', 'alt'] + [sh for _, sh in unit_shapes]
+    D0, D1 = 10, (2000 if tier == 'quick' else 6000)
+    with ThreadPoolExecutor(max_workers=8) as ex:
+        sp = list(ex.map(lambda sh: (span(sh, D0), span(sh, D1)), sshapes))
+    worst = 0
+    for sh, (a0, a1) in zip(sshapes, sp):
+        res.evaluations += 1
+        res.nt('stack' + sh)
+        if a0 is None or a1 is None:
+            res.oracle_failures.append({'sig': usig('stack' + sh), 'what': f'stack probe on {sh}: the unoptimised process died at depth {D0 if a0 is None else D1} (stack overflow or abort)',
+                                        'reqs': [f'(debug build) --deep stack {sh} {D1}'], 'input': f'{sh} x {D1}'})
+            continue
+        worst = max(worst, (a1 - a0) / (D1 - D0))
+        if a1 > a0 + 65536:
+            res.oracle_failures.append({'sig': usig('stack' + sh), 'what': f'stack use grows with the nesting depth: {a0} bytes at depth {D0}, {a1} bytes at depth {D1} ({(a1 - a0) // (D1 - D0)} bytes per level, unoptimised build)',
+                                        'reqs': [f'(debug build) --deep stack {sh} {D0}', f'(debug build) --deep stack {sh} {D1}'], 'input': f'{sh} x {D1}'})
+    res.extra['stack_bytes_per_level_worst'] = round(worst, 2)
     return res
 
 
